@@ -10,6 +10,7 @@ package logic
 
 import (
 	"fmt"
+	"github.com/q191201771/lal/pkg/hls"
 	"path/filepath"
 
 	"github.com/q191201771/lal/pkg/httpflv"
@@ -24,6 +25,11 @@ func (group *Group) startRecordFlvIfNeeded(nowUnix int64) {
 	// 构造文件名
 	filename := fmt.Sprintf("%s-%d.flv", group.streamName, nowUnix)
 	filenameWithPath := filepath.Join(group.config.RecordConfig.FlvOutPath, filename)
+	// 注意，流名称由对端指定（可能包含".."或者路径分隔符），录制文件必须位于配置的录制目录之内，否则不录制
+	if !hls.IsInsideRootOutPath(group.config.RecordConfig.FlvOutPath, filenameWithPath) {
+		Log.Errorf("[%s] record flv file is not inside the record out path, record disabled. filename=%s", group.UniqueKey, filenameWithPath)
+		return
+	}
 
 	// 初始化录制
 	group.recordFlv = &httpflv.FlvFileWriter{}
